@@ -43,6 +43,9 @@ CONSTANTS
     Ops,          \* MC: names of the calls explored
     ReqVers,      \* MC: version strings used as explicit arguments
     Lazies,       \* MC: subset of BOOLEAN used as LAZY flag
+    Dev,          \* what-if switches: deviations of EARLIER versions of the code (each repaired by a fix: commit)
+                  \*   "versionless_mismatch" (before be112cf), "lazy_key_reuse" (before b191088),
+                  \*   "mem_conflict_dead" (before bd3a825), "closure_replace" (before 06f5b7d); {} = the current code
     Known         \* MC: <<clause, cause>> pairs the DESIGN (I-layer) is known to break (see c17.py)
 
 VARIABLES disk, path, loaded, last, ncalls
@@ -147,13 +150,19 @@ Out(r, L) == [res |-> r, L |-> L]
 RECURSIVE IReq(_, _, _, _, _, _, _), IDeps(_, _, _, _, _)
 
 \* register_internal(): lazy = insert into lazy_typelibs, nothing else; eager = dependencies
-\* first (load_dependencies_recurse, global search path, flags 0), then insert into typelibs.
-\* An existing key (lazy->eager transition, or the namespace got registered meanwhile) is KEPT,
-\* so the path reported afterwards is the old one.
+\* first (load_dependencies_recurse, global search path, flags 0); if one of them has meanwhile
+\* registered (another version of) the namespace: version conflict, the dependencies stay
+\* registered; else the lazy entry (if any) is dropped and the typelib is inserted under a key built
+\* from ITS source.
+\* What-ifs: "closure_replace" = the registered entry is replaced, its key (path) kept;
+\* "lazy_key_reuse" = the key of the lazy entry is reused (freed memory in the real code; the model
+\* says: old path kept).
 IRegister(dk, gp, L, d, f, lz) ==
     IF lz THEN {Out("ok", (f.ins :> Entry(d, f, TRUE)) @@ L)}
     ELSE {IF o.res # "ok" THEN o
-          ELSE Out("ok", (f.ins :> (IF f.ins \in DOMAIN o.L
+          ELSE IF f.ins \in DOMAIN o.L /\ ~o.L[f.ins].lazy /\ "closure_replace" \notin Dev THEN Out("CONFLICT", o.L)
+          ELSE Out("ok", (f.ins :> (IF f.ins \in DOMAIN o.L /\ (IF o.L[f.ins].lazy THEN "lazy_key_reuse" \in Dev
+                                                                                    ELSE "closure_replace" \in Dev)
                                     THEN [c |-> Content(f), dir |-> o.L[f.ins].dir, fns |-> o.L[f.ins].fns,
                                           fver |-> o.L[f.ins].fver, lazy |-> FALSE]
                                     ELSE Entry(d, f, FALSE))) @@ o.L)
@@ -175,16 +184,22 @@ IReq(dk, gp, L, sp, n, v, lz) ==
                          ELSE {Loc(c.dir, c.f) : c \in IElect(dk, sp, n)}
             IN IF cands = {} THEN {Out("NOT_FOUND", L)}
                ELSE UNION {IF c.f.ins # n THEN {Out("MISMATCH", L)}
+                           \* tmp_version = the requested version, or the one in the elected file's name
                            ELSE IF v # NONE /\ c.f.iver # v THEN {Out("MISMATCH", L)}
+                           ELSE IF v = NONE /\ c.f.iver # c.f.fver /\ "versionless_mismatch" \notin Dev THEN {Out("MISMATCH", L)}
                            ELSE IRegister(dk, gp, L, c.dir, c.f, lz) : c \in cands}
 
-\* g_irepository_load_typelib(): the conflict branch is dead code (get_registered_status returns
-\* NULL on a conflict), so another version REPLACES the registered one (key kept); with LAZY the
-\* typelib is put into lazy_typelibs although the namespace is in typelibs (lookups keep
-\* answering from typelibs: modelled as "no change"), or g_assert fails if it is in lazy_typelibs.
+\* g_irepository_load_typelib(): registered with the same version = returned; another version
+\* registered (and visible: a lazily loaded one is invisible to a non-lazy call) = version conflict;
+\* else register_internal from "<builtin>".
+\* What-if "mem_conflict_dead": the conflict test was dead code (get_registered_status returns NULL
+\* on a conflict), so another version REPLACED the registered one (key kept); with LAZY the typelib
+\* went into lazy_typelibs although the namespace was in typelibs (lookups keep answering from
+\* typelibs: "no change"), or g_assert failed if it was in lazy_typelibs.
 ILoadMem(dk, gp, L, f, lz) ==
     LET st == IStatus(L, f.ins, f.iver, lz)
     IN IF st = "hit" THEN {Out("ok", L)}
+       ELSE IF st = "conflict" /\ "mem_conflict_dead" \notin Dev THEN {Out("CONFLICT", L)}
        ELSE IF lz /\ f.ins \in DOMAIN L
             THEN IF L[f.ins].lazy THEN {Out("crash", L)} ELSE {Out("ok", L)}
        ELSE IRegister(dk, gp, L, BUILTIN, [f EXCEPT !.fns = "", !.fver = ""], lz)
@@ -398,7 +413,14 @@ Conseq(k, dk, s, c, o, t) ==
           IF o.res = "ok" THEN \E e \in E : Consistent(dk, s, e)
                           ELSE \E e \in E : o.res \in FailKinds(dk, s, e)
     [] k = "LazyOutcome" -> (o.res = "ok" \/ \E e \in E : o.res \in FailKinds(dk, s, e))
-    [] k = "FailRegistersNot" -> n \notin DOMAIN t.L
+    \* a failed call does not register its target - unless the target's own dependency closure
+    \* names another version of it, which then IS loaded (as a dependency's dependency) when the
+    \* conflict is discovered
+    [] k = "FailRegistersNot" ->
+          \/ n \notin DOMAIN t.L
+          \/ /\ o.res = "CONFLICT"
+             /\ LegitFile(dk, t.L[n], n)
+             /\ \E e \in E : \E x \in Nodes(dk, s, e) : x.ns = n /\ x.ver = t.L[n].c.ver /\ x.ver # e.f.iver
     \* nothing else gets loaded than dependencies, each from the first directory having
     \* <dep>-<recorded version>.typelib   (in the silent zones: from SOME good file)
     [] k = "OnlyClosure" ->
